@@ -80,6 +80,12 @@ class C13(InvProp):
                 f["content"]["applications"] = [rr.choice(["shared", "=db", "app_a", "x~y", "~gone"]) for _ in range(rr.range(1, 3))]
             c["fam"] = "odd_names"
             yield c
+        for j in range(24 if tier == "quick" else 400):
+            # a node (or class) file that is readable but cannot be decoded, among healthy ones: the inventory fails and
+            # the error names a node that fails
+            c = GI2.broken_file_among_good(Rng(seed, "C13:broken", j))
+            c.pop("repeat", None)
+            yield c
         N = 200 if tier == "quick" else 5000
         for i in range(N):
             r = Rng(seed, "C13", i)
@@ -112,6 +118,13 @@ class C13(InvProp):
             j["impl_oracle"] = False
             j["concrete"] = True
             j["why"] += "; an inventory entry differs from rendering that node alone"
+        # the error of a failing inventory names a node that fails (whatever else it says)
+        inv_err = (impl.get("inventory") or {}).get("err")
+        failing = [n for n, r in impl.get("nodes", {}).items() if "ok" not in r]
+        if isinstance(inv_err, str) and failing and not any(n and n in inv_err for n in failing):
+            j["impl_oracle"] = False
+            j["concrete"] = True
+            j["why"] += "; the inventory error (%s) names none of the failing nodes %s" % (inv_err[:120], failing[:4])
         # fails iff some node fails
         anyfail = any("ok" not in r for r in impl.get("nodes", {}).values())
         invok = "ok" in (impl.get("inventory") or {})
